@@ -54,6 +54,27 @@ let edges_of (evs : event list) : (coq_N * coq_N) list =
     | _ :: t -> go held acc t in
   go [] [] evs
 
+(* API brackets: "A<id>" ... "Z<id>" around a public API call.  Returns the event list without
+   the brackets and the list of (id, events inside the call). *)
+let split_calls (toks : string list) : string list * (int * string list) list =
+  let plain = ref [] and calls = ref [] and cur = ref None in
+  Stdlib.List.iter (fun t ->
+    let n = String.length t in
+    if n >= 2 && t.[0] = 'A' && (match t.[1] with '0'..'9' -> true | _ -> false) then
+      cur := Some (int_of_string (String.sub t 1 (n - 1)), [])
+    else if n >= 2 && t.[0] = 'Z' && (match t.[1] with '0'..'9' -> true | _ -> false) then
+      (match !cur with
+       | Some (id, evs) -> calls := (id, Stdlib.List.rev evs) :: !calls; cur := None
+       | None -> ())
+    else begin
+      plain := t :: !plain;
+      match !cur with Some (id, evs) -> cur := Some (id, t :: evs) | None -> ()
+    end) toks;
+  (Stdlib.List.rev !plain, Stdlib.List.rev !calls)
+
+let show_req = function
+  | ApiLock.ReqRead -> "read" | ApiLock.ReqWrite -> "write" | ApiLock.ReqWriteAfterRead -> "write-after-read"
+
 let run_case (line : string) : string =
   let parts = Stdlib.List.map String.trim (split_on '|' line) in
   match parts with
@@ -62,7 +83,19 @@ let run_case (line : string) : string =
       let cl = n_of_int 1 in
       let bad = ref None and edges = ref [] in
       Stdlib.List.iteri (fun i t ->
-        let toks = words t in
+        let toks, calls = split_calls (words t) in
+        (* lock class per API entry point (Conc/ApiLock.v): shared->lock has id 2 in the driver *)
+        Stdlib.List.iter (fun (id, ctoks) ->
+          if !bad = None then
+            match ApiLock.api_req (n_of_int id) with
+            | None -> ()
+            | Some r ->
+                let cevs = Stdlib.List.filter_map (fun x -> if x = "-" then None else parse_event x) ctoks in
+                if not (ApiLock.api_call_ok (n_of_int 2) r cevs) then
+                  bad := Some (Printf.sprintf "ApiLockClass api=%d needs=%s sees=%s (thread %d)" id (show_req r)
+                                 (String.concat "," (Stdlib.List.filter (fun x ->
+                                    String.length x >= 2 && (x.[0] = 'r' || x.[0] = 'w' || x.[0] = 'u')
+                                    && x.[1] = '2') ctoks)) i)) calls;
         let evs = Stdlib.List.filter_map (fun x -> if x = "-" then None else
           match parse_event x with Some e -> Some e
           | None -> (if !bad = None then bad := Some (Printf.sprintf "thread %d: bad token %s" i x)); None) toks in
